@@ -119,6 +119,18 @@ static inline void xv_hostile(xv_rng *r, char *buf, size_t n) {
  *   feenableexcept in the host): a query that computes 0/0 or log(-1) before rejecting its arguments dies instead of answering. */
 #include <fenv.h>
 static void __attribute__((noinline)) xv_poison_stack(void) { volatile unsigned char b[24576]; size_t i; for (i = 0; i < sizeof b; i += 8) *(volatile uint64_t *)(b + i) = 0xFFFFFFFFFFFFFFFFULL; }
-static void xv_fptrap_from_env(void) { if (getenv("XV_FPTRAP")) feenableexcept(FE_INVALID | FE_DIVBYZERO | FE_OVERFLOW); }
+/* host floating-point set-ups a program may legitimately have when it calls the library:
+ *   XV_FPTRAP     invalid / divide-by-zero / overflow exceptions trap (feenableexcept, gfortran -ffpe-trap)
+ *   XV_X87PC=24|53  the x87 precision-control field set to single / double (Direct3D 9, some audio and JIT engines, old BSD defaults): SSE
+ *                 arithmetic - all a double computation on x86-64 uses - is not affected, x87 long double arithmetic is */
+static void xv_fptrap_from_env(void) {
+  const char *pc = getenv("XV_X87PC");
+  if (getenv("XV_FPTRAP")) feenableexcept(FE_INVALID | FE_DIVBYZERO | FE_OVERFLOW);
+#if defined(__x86_64__) || defined(__i386__)
+  if (pc) { unsigned short cw = 0; __asm__ volatile("fnstcw %0" : "=m"(cw)); cw &= (unsigned short)~0x0300; if (atoi(pc) == 53) cw |= 0x0200; __asm__ volatile("fldcw %0" : : "m"(cw)); }
+#else
+  (void)pc;
+#endif
+}
 
 #endif
